@@ -114,6 +114,21 @@ def exact(ctx, where, n, m, g, gname, warm=False):
                         # the code took the side "this quantity is 0" (e.g. x0 == 0): judge it for such inputs
                         got = got.subs(zero) if hasattr(got, 'subs') else got
                         want = want.subs(zero)
+                    if isinstance(got, ndarr.Choice):
+                        # the value depends on a test on the data (a threshold on the weights, say): every outcome that
+                        # some grid realises must be the exact derivative.  Outcomes are realised here by concrete scales
+                        # of the grid (s = 1, 10^-20, 10^20; a witness each); an outcome no witness reaches stays undecided
+                        hit = None
+                        for sval in (Fr(1), Fr(1, 10 ** 20), Fr(10 ** 20), Fr(1, 10 ** 6), Fr(10 ** 6)):
+                            r = ndarr.resolve_at(got, {'s': sval, 'c': Fr(0), 'EPS': Fr(1, 2 ** 52)})
+                            if r is not None and not isinstance(r[0], ndarr.Choice) and not alg_equal(r[0], want):
+                                hit = (sval, r)
+                                break
+                        if hit is None:
+                            raise AnalysisError('du[%d] depends on a test on the data that could not be resolved: %s' % (t, repr(got)[:200]))
+                        bad.append('du[%d] = %s for a grid of spacing scale s = %s (tests: %s), exact %s'
+                                   % (t, repr(hit[1][0])[:70], hit[0], hit[1][1][:2], repr(want)[:70]))
+                        continue
                     if not alg_equal(got, want):
                         bad.append('du[%d] = %s, exact %s' % (t, repr(got)[:70], repr(want)[:70]))
             rep.check(not bad, 'R-EXACT', 'fornberg.fd_derivative', where, {'points': len(g), 'degree': D, 'mismatches': bad[:2]},
